@@ -121,7 +121,7 @@ fn emit_choice_block(
                 fallback_continuation,
                 Some(g_n_path.as_str()),
                 true,
-                LooseEndNoFallback::Done,
+                LooseEndNoFallback::None,
             ) {
                 gather_container.push(token);
             }
@@ -177,7 +177,6 @@ const IMPLICIT_DONE_FALLBACK: &str = "DONE";
 
 enum LooseEndNoFallback<'a> {
     None,
-    Done,
     Token(&'a str),
 }
 
@@ -197,12 +196,12 @@ fn loose_end_append_for_nodes<'a>(
         return None;
     }
 
-    if let Some(path) = fallback_path
-        && self_path != Some(path)
-    {
-        if path == IMPLICIT_DONE_FALLBACK {
-            // A loose end inside the final gather of the top-level content: the
-            // story ends in its implicit `-> DONE`.
+    if let Some(path) = fallback_path {
+        if path == IMPLICIT_DONE_FALLBACK || self_path == Some(path) {
+            // The final gather of the top-level content itself, or a loose end
+            // inside it: the story ends in its implicit `-> DONE`. (The final
+            // gather of a knot or stitch has no fallback: running out of content
+            // there is an error, as Ink prescribes.)
             return Some(json!("done"));
         }
         return Some(json!({"->": path}));
@@ -210,7 +209,6 @@ fn loose_end_append_for_nodes<'a>(
 
     match no_fallback {
         LooseEndNoFallback::None => None,
-        LooseEndNoFallback::Done => Some(json!("done")),
         LooseEndNoFallback::Token(token) => Some(json!(token)),
     }
 }
@@ -342,7 +340,7 @@ fn build_threaded_choice_block_no_label(
         fallback_continuation,
         Some(continuation_path_abs.as_str()),
         true,
-        LooseEndNoFallback::Done,
+        LooseEndNoFallback::None,
     ) {
         continuation_container.push(token);
     }
